@@ -779,6 +779,24 @@ func init() {
 						hs = save
 					}
 				}
+				if c.Case/4%4 == 2 {
+					// the acknowledgement overtakes the write of its PUBLISH
+					for _, outcome := range []string{"completes", "fails", "expires", "is cut off by a reset"} {
+						level := 1 + r.Intn(2)
+						acks := "the first acknowledgement"
+						if level == 2 && r.Intn(2) == 0 {
+							acks = "both acknowledgements"
+						}
+						if level == 2 && outcome == "is cut off by a reset" {
+							// the read routine waits for the writer with its PUBREL:
+							// it cannot come to a violation behind the PUBREC
+							level = 1
+							acks = "the first acknowledgement"
+						}
+						c13AckAhead(c, level, r.Intn(3), []int{0, 1, 2, 5, 1 << 20}[r.Intn(5)], acks, outcome)
+						inputs++
+					}
+				}
 				for i, dv := range directed {
 					if i%8 != (c.Case/4)%8 {
 						continue
